@@ -41,7 +41,8 @@ MEASURED_FAST = set(
        "c12_insert_4", "c12_insert_5", "c12_bitor_universe6", "c12_bitand_universe6", "c12_add_single_id",
        "c12_ancestor_union_u3", "c12_ancestor_common_u3",
        "c19_is_modifier_u4", "c19_term_categories_u3",
-       "c13_child_nodes_1_3", "c13_child_nodes_all3_k2", "c13_obsolete_2_3", "c13_replace_1_3"])
+       "c13_child_nodes_1_3", "c13_child_nodes_all3_k2", "c13_obsolete_2_3", "c13_replace_1_3",
+       "c18_annotation_delta_u3", "c10_arena_insert_symbolic_ids"])
 # CBMC option that lets symex constant-propagate reads from small heap objects (the arena id table): without it
 # the slot number read back from the table is symbolic and every later field access is a symbolic-offset access
 FS = "-Z unstable-options --cbmc-args --max-field-sensitivity-array-size 4096"
@@ -382,7 +383,7 @@ PROPERTIES["C18"] = dict(
 )
 H("C18", "comparison", "c18_annotation_delta_u2", tq=1800, mem="medium", bounds="universe of 2 ids, names in {a,b}")
 H("C18", "comparison", "c18_annotation_delta_swap", tq=1800, mem="medium", bounds="universe of 2 ids, different sets, swapped arguments")
-H("C18", "comparison", "c18_annotation_delta_u3", tier="thorough", mem="heavy", tt=3600, deep=True, bounds="universe of 3 ids, names in {a,b}")
+H("C18", "comparison", "c18_annotation_delta_u3", tier="thorough", mem="heavy", tt=3600, bounds="universe of 3 ids, names in {a,b}")
 H("C18", "comparison", "c18_twin_must_fail", expect="fail")
 
 # ------------------------------------------------------------------------------------------------
